@@ -4,6 +4,7 @@ import (
 	"encoding/binary"
 	"fmt"
 	"io"
+	"math"
 )
 
 // RangeNamespaceDataIDV0Size defines the size of the RangeNamespaceDataIDV0Size in bytes,
@@ -23,7 +24,11 @@ func NewRangeNamespaceDataIDV0(
 	if err != nil {
 		return RangeNamespaceDataIDV0{}, err
 	}
-	return RangeNamespaceDataIDV0{RangeNamespaceDataID: rngData}, nil
+	id := RangeNamespaceDataIDV0{RangeNamespaceDataID: rngData}
+	if err := id.validateBounds(); err != nil {
+		return RangeNamespaceDataIDV0{}, err
+	}
+	return id, nil
 }
 
 // RangeNamespaceDataIDV0FromBinary deserializes a RangeNamespaceDataIDV0 from its binary form.
@@ -81,7 +86,19 @@ func (rngid RangeNamespaceDataIDV0) WriteTo(w io.Writer) (int64, error) {
 
 // appendTo helps in constructing the binary representation of RangeNamespaceDataIDV0
 // by appending all encoded fields.
+// validateBounds checks that From and To fit the 16-bit fields of the V0 encoding.
+func (rngid RangeNamespaceDataIDV0) validateBounds() error {
+	if rngid.From < 0 || rngid.From > math.MaxUint16 || rngid.To < 0 || rngid.To > math.MaxUint16 {
+		return fmt.Errorf("%w: range [%d, %d) does not fit RangeNamespaceDataIDV0 encoding",
+			ErrInvalidID, rngid.From, rngid.To)
+	}
+	return nil
+}
+
 func (rngid RangeNamespaceDataIDV0) appendTo(data []byte) ([]byte, error) {
+	if err := rngid.validateBounds(); err != nil {
+		return nil, err
+	}
 	data, err := rngid.AppendBinary(data)
 	if err != nil {
 		return nil, fmt.Errorf("appending EdsID: %w", err)
